@@ -364,6 +364,14 @@ def compare_ep(impl_ok, model_rows, select=None, rel=Fraction(2, 100000), ratio_
           and not k.endswith("/carrier")}
     scale = ep_scale(fi)
     area = fi.get("arearef", Fraction(1))
+    # conditioning of the RER ratios: an absolute error e on ren/nren moves ren/tot by about e(1+|rer|)/|tot|
+    try:
+        totb = abs(fi["balance/we/b/0"] + fi["balance/we/b/1"])
+    except (KeyError, TypeError):
+        totb = Fraction(0)
+    rer_extra = Fraction(0)
+    if totb > 0:
+        rer_extra = 8 * (rel * scale + Fraction(1, 1000000)) * (1 + abs(fi.get("rer", Fraction(0)))) / totb
     bad = []
     keys = set(fi) | set(model_rows)
     for k in sorted(keys):
@@ -377,7 +385,9 @@ def compare_ep(impl_ok, model_rows, select=None, rel=Fraction(2, 100000), ratio_
         if not isinstance(a, Fraction):
             bad.append((k, a, b))
             continue
-        if RATIO_RE.search(k):
+        if k.startswith("rer"):
+            tol = ratio_abs + rer_extra
+        elif RATIO_RE.search(k):
             tol = ratio_abs
         else:
             sc = scale
